@@ -8,5 +8,6 @@ MODULES = {
     "C05": "harness.c05_frame",
     "C08": "harness.c08_gearseq",
     "C12": "harness.c12_events",
+    "C13": "harness.c13_deviceseq",
     "C14": "harness.c14_colour",
 }
